@@ -43,6 +43,18 @@ func c18RandOp(rng *rand.Rand, nwin int, big bool) string {
 	case r < 15:
 		return "clr"
 	case r < 16:
+		if rng.Intn(2) == 0 { // SerializeLayers / SerializePacket-style stacking, incl. the empty stack
+			n := rng.Intn(4)
+			var ls []string
+			for j := 0; j < n; j++ {
+				h := make([]byte, []int{0, 1, 2, 8, 20}[rng.Intn(5)])
+				for k := range h {
+					h[k] = byte(1 + rng.Intn(255))
+				}
+				ls = append(ls, fmt.Sprintf("%d.%s", 1+rng.Intn(200), hex.EncodeToString(h)))
+			}
+			return "ser:" + strings.Join(ls, "|")
+		}
 		return fmt.Sprintf("push:%d", rng.Intn(200))
 	default:
 		if nwin == 0 {
@@ -63,7 +75,7 @@ func (c18) Gen(rng *rand.Rand, tier string) []Case {
 	if tier == "thorough" {
 		exd = 5
 	}
-	small := []string{"pre:1,aa", "pre:3,b1b2b3", "app:2,c1c2", "app:8,d1d2d3d4d5d6d7d8", "clr", "wr:1,0,238", "pre:2,", "push:7"}
+	small := []string{"pre:1,aa", "pre:3,b1b2b3", "app:2,c1c2", "app:8,d1d2d3d4d5d6d7d8", "clr", "wr:1,0,238", "pre:2,", "push:7", "ser:", "ser:5.e1e2|6.|7.f1"}
 	for _, hint := range [][2]int{{0, 0}, {1, 0}, {2, 3}} {
 		var rec func(prefix []string, d int)
 		rec = func(prefix []string, d int) {
@@ -93,6 +105,22 @@ func (c18) Gen(rng *rand.Rand, tier string) []Case {
 		out = append(out, Case{Prop: "C18", Ops: ops})
 	}
 	return out
+}
+
+// c18Layer is a serializable layer that prepends its header bytes.
+type c18Layer struct {
+	t   gopacket.LayerType
+	hdr []byte
+}
+
+func (l c18Layer) LayerType() gopacket.LayerType { return l.t }
+func (l c18Layer) SerializeTo(b gopacket.SerializeBuffer, opts gopacket.SerializeOptions) error {
+	w, err := b.PrependBytes(len(l.hdr))
+	if err != nil {
+		return err
+	}
+	copy(w, l.hdr)
+	return nil
 }
 
 type c18win struct {
@@ -184,6 +212,46 @@ func (c18) Run(c Case) Result {
 				buf.Clear()
 				epoch++
 				tape = nil
+			case "ser":
+				// gopacket.SerializeLayers over harness-defined layers that prepend their header
+				var sls []gopacket.SerializableLayer
+				var wantBytes []byte
+				var wantTypes []string
+				if arg != "" {
+					for _, l := range strings.Split(arg, "|") {
+						ts, hs, _ := strings.Cut(l, ".")
+						t, _ := strconv.Atoi(ts)
+						h, _ := hex.DecodeString(hs)
+						sls = append(sls, c18Layer{t: gopacket.LayerType(t), hdr: h})
+						wantBytes = append(wantBytes, h...)
+					}
+					for i := len(sls) - 1; i >= 0; i-- {
+						wantTypes = append(wantTypes, strconv.Itoa(int(sls[i].LayerType())))
+					}
+				}
+				err := gopacket.SerializeLayers(buf, gopacket.SerializeOptions{}, sls...)
+				epoch++
+				tape = nil
+				for _, b := range wantBytes {
+					tape = append(tape, int(b))
+				}
+				twins = nil // windows handed to the layers are not tracked by the harness
+				wins = nil
+				winlen = 0
+				if err != nil {
+					res.Oracle = append(res.Oracle, "stack\tSerializeLayers returned an error: "+err.Error())
+				}
+				var got []string
+				for _, l := range buf.Layers() {
+					got = append(got, strconv.Itoa(int(l)))
+				}
+				if strings.Join(got, ",") != strings.Join(wantTypes, ",") {
+					res.Oracle = append(res.Oracle, fmt.Sprintf("stack\tafter %s: Layers() = %v, want innermost first %v", op, got, wantTypes))
+				}
+				if !bytes.Equal(buf.Bytes(), wantBytes) {
+					res.Oracle = append(res.Oracle, fmt.Sprintf("stack\tafter %s: Bytes() = %x, want outermost first %x", op, buf.Bytes(), wantBytes))
+				}
+				tags["stack"] = true
 			case "push":
 				t, _ := strconv.Atoi(args[0])
 				buf.PushLayer(gopacket.LayerType(t))
